@@ -233,6 +233,11 @@ class SpanUpdater:
 
     def update(self, offset, bisect):
         """Shift an offset left or right."""
-        index = bisect(self.offsets, offset) - 1
+        if not self.updaters:
+            # text_before is empty, so there are no ranges to look up
+            return offset
+        # offset 0 under bisect_left is before the first range's start;
+        # it still belongs to the first range, not (via index -1) the last
+        index = max(bisect(self.offsets, offset) - 1, 0)
         updater = self.updaters[index]
         return updater(offset)
